@@ -287,7 +287,10 @@ def stepMon (st : MState) (op : String) (out : String) : MState × List Viol :=
               (q, g)
             -- C01 gate: the wantlist after the message is the old one minus the accepted CIDs
             let v := if snap.want.all (fun k => k ∈ prev.want) then [] else [("C01", "an incoming message added CIDs to the wantlist")]
-            ({ st with ghosts := gs, accepted := accepted ++ st.accepted }, v ++ vref)
+            -- C16: a message carrying both a wantlist and blocks / presences has both parts applied
+            let v16 := if vref.isEmpty || (hs.isEmpty && ds.isEmpty && bs.isEmpty) then []
+              else [("C16", s!"message from peer {p} carried blocks / presences and a wantlist, but the wantlist part was not applied to the server's record")]
+            ({ st with ghosts := gs, accepted := accepted ++ st.accepted }, v ++ vref ++ v16)
         | "connect" :: p :: c :: _ =>
           let p := p.toNat?.getD 0
           let c := c.toNat?.getD 0
@@ -310,8 +313,17 @@ def stepMon (st : MState) (op : String) (out : String) : MState × List Viol :=
           else
             match lookup prev.peers p, lookup snap.peers p with
             | some a, none =>
-              (st, if a.conns.length ≤ 1 then [] else [("C15", s!"peer {p} discarded although connections {a.conns} remained")])
+              (st, if a.conns.all (· == (_c.toNat?.getD 0)) then []
+                   else [("C15", s!"peer {p} discarded when connection {_c} closed although its connections {a.conns} remained")])
             | _, _ => (st, [])
+        | ["closing", p, c] =>
+          let p := p.toNat?.getD 0
+          let c := c.toNat?.getD 0
+          match lookup prev.peers p, lookup snap.peers p with
+          | some a, none =>
+            (st, if a.conns.all (· == c) then []
+                 else [("C15", s!"peer {p} discarded when connection {c} was closing although its connections {a.conns} remained")])
+          | _, _ => (st, [])
         | "drain" :: _ =>
           -- outputs of the drain
           let sends := outToks.filterMap parseOutTok
